@@ -28,7 +28,7 @@ RULE = ("random stacks (depth<=4) of pass-through / item-transforming / ctx-reco
         "recording item); every index form (int, negative, slice, list), iteration, len, random access histories with repeats; TorchWrapper "
         "over tuple-returning torch datasets; static mode helpers on random batches; non-trivial = dataset non-empty; distinct by spec")
 ASSUMPTIONS = [
-    "out-of-range indices and duplicated members of a fused group in one mode are not driven (property silent on exception types / 'once')",
+    "an index beyond the last sample (len, len+3) must raise something instead of delivering a sample; indices below -len and duplicated members of a fused group in one mode are not driven",
     "for stacks declaring jointly loaded items only items implemented on the outermost wrapper are requested (constructor rejects the rest)",
     "TorchWrapper is driven over torch datasets that return tuples (multi-item modes)",
     "extra separate loads next to a joint load are tolerated (counted in the evidence); exactly one joint load per fully present group is required",
@@ -51,7 +51,8 @@ class Root(KDDataset):
         i = int(idx)
         if i < 0:
             i += self.n
-        assert 0 <= i < self.n, f"root {self.tag}: index {idx} out of range"
+        if not 0 <= i < self.n:
+            raise IndexError(f"root {self.tag}: index {idx} out of range")
         self.log.append((item, self.tag, i, id(ctx) if ctx is not None else None))
         if ctx is not None:
             ctx[f"{item}_idx"] = (self.tag, i)
@@ -393,6 +394,16 @@ def run_case(run, spec):
         run.count("index_forms_checked")
         if not check_one(got, i % n if i >= 0 else i + n, f"ds[{i}]", ls, ws):
             return
+    # ---- an index beyond the last sample must not silently deliver some other sample (sequence semantics: it raises)
+    if not any(L == "concat" for L in spec["layers"]) and any(m != "index" and not m.startswith("ctx.") for m in mode):
+        for bad in (n, n + 3):
+            run.count("index_forms_checked")
+            try:
+                got = mw[bad]
+            except Exception:
+                continue
+            run.violation("out-of-range-returns-a-sample", f"{desc}: ds[{bad}] on {n} samples returned {_s(got)} instead of raising")
+            return
     # ---- slices and index lists: sequence semantics against a list of per-index results
     sl_cases = [slice(None), slice(1, None), slice(None, -1), slice(None, None, -1), slice(int(rng.integers(-n - 1, n + 2)), int(rng.integers(-n - 1, n + 2)), int(rng.choice([-2, -1, 1, 2, 3]))),
                 slice(n - 1, None, -2), slice(-1, None)]
@@ -518,9 +529,13 @@ class _TupleDS(torch.utils.data.Dataset):
     def __init__(self, n, width):
         self.n, self.width = n, width
         self.marker = "tuple-ds"
+        self.calls = 0
 
     def __getitem__(self, idx):
-        return tuple(("f", j, int(idx)) for j in range(self.width))
+        if not 0 <= int(idx) < self.n:
+            raise IndexError(idx)
+        self.calls += 1  # the dataset is not a pure function of the index (augmentation, epoch state, ...): every access loads afresh
+        return tuple(("f", j, int(idx), self.calls) for j in range(self.width))
 
     def __len__(self):
         return self.n
@@ -542,17 +557,31 @@ def _run_torch(run, spec):
     if not ok:
         return
     run.cover("torch", width, len(req))
-    for i in list(range(n)) + [-1]:
+    order = list(range(n)) + [-1]
+    order += [int(rng.integers(n)) for _ in range(4)]
+    order += [order[-1], order[-1]]  # the same index several times in a row
+    for i in order:
+        calls_before = base.calls
         ok, got = call_real(run, lambda: mw[i], what=f"ModeWrapper(TorchWrapper)[{i}]")
         if not ok:
             return
         run.count("samples_compared")
         ii = i % n
-        want = [ii if r == "index" else ("f", names.index(r), ii) for r in req]
-        want = want[0] if len(want) == 1 else tuple(want)
-        if got != want:
-            run.violation("torchwrapper:item", f"TorchWrapper(mode={tmode!r}) under mode {' '.join(req)!r}: [{i}] = {_s(got)}, expected {_s(want)}")
+        vals = [got] if len(req) == 1 else list(got) if isinstance(got, tuple) else None
+        if vals is None or len(vals) != len(req):
+            run.violation("torchwrapper:item", f"TorchWrapper(mode={tmode!r}) under mode {' '.join(req)!r}: [{i}] = {_s(got)}")
             return
+        for r, v in zip(req, vals):
+            if r == "index":
+                good = v == ii
+            else:
+                good = isinstance(v, tuple) and len(v) == 4 and v[:3] == ("f", names.index(r), ii)
+                if good and not v[3] > calls_before:
+                    run.violation("torchwrapper:stale-sample", f"TorchWrapper: [{i}] delivered {_s(v)}, a sample loaded before this access (load counter was {calls_before}); the wrapped dataset was not asked again")
+                    return
+            if not good:
+                run.violation("torchwrapper:item", f"TorchWrapper(mode={tmode!r}) under mode {' '.join(req)!r}: [{i}] position {r} = {_s(v)}")
+                return
     ok, r = call_real(run, lambda: (len(mw), tw.marker), what="len / attribute delegation of TorchWrapper")
     if ok and r != (n, "tuple-ds"):
         run.violation("torchwrapper:delegation", f"len/attribute delegation gives {r}")
